@@ -72,6 +72,15 @@ Theorem C07_remove_leaves_no_record : forall h id,
 Proof. exact remove_leaves_no_record. Qed.
 Print Assumptions C07_remove_leaves_no_record.
 
+(* transient storage faults on the save path: a round of the save loop in which storing a marked port fails leaves the mark in
+   place, and the next round stores the port and clears the marks *)
+Theorem C07_failed_save_is_retried : forall h id,
+  In id (h_pending h) -> In id (h_live h) ->
+  In id (h_pending (step h (OSaveFailed id)))
+  /\ (let h' := step (step h (OSaveFailed id)) OSaveAll in In id (st_ports h') /\ h_pending h' = []).
+Proof. exact failed_save_is_retried. Qed.
+Print Assumptions C07_failed_save_is_retried.
+
 Theorem C07_device_roundtrip : forall empty_hash d0 d, wf_device d -> device_load empty_hash d0 (device_save d) = d.
 Proof. exact device_roundtrip. Qed.
 Print Assumptions C07_device_roundtrip.
